@@ -14,6 +14,10 @@
  *                              write(): the k-th write (1-based) to a pipe on a descriptor above 2 fails with errno e
  *   VERIF_ENV_WRITE_SHORT_EVERY=<n>
  *                              write(): every n-th write to such a pipe transfers only half of the bytes (>= 1)
+ *   VERIF_ENV_OWRITE_FAIL_AT=<k> + VERIF_ENV_OWRITE_ERRNO=<e>
+ *                              write(): the k-th write to a regular file on a descriptor above 2 fails with errno e (ENOSPC, EIO, ...)
+ *   VERIF_ENV_OWRITE_SHORT_EVERY=<n>
+ *                              write(): every n-th write to such a file transfers only half of the bytes (>= 1)
  *   VERIF_ENV_SPAWN_FAIL_AT=<k> + VERIF_ENV_SPAWN_ERRNO=<e>
  *                              posix_spawn()/posix_spawnp(): the k-th call fails with errno e (EAGAIN, ENOMEM)
  *   VERIF_ENV_IO_PREFIX=<dir>[:<dir>...]  "input objects" are paths below these directories (relative paths count when the working
@@ -425,7 +429,9 @@ int clock_gettime(clockid_t id, struct timespec *ts) {
 #include <spawn.h>
 static int wf_init = 0;
 static uint64_t wf_fail_at, wf_errno = 32, wf_short_every;
+static uint64_t of_fail_at, of_errno = 28, of_short_every;
 static unsigned long n_pipe_writes, n_write_faults, n_short_writes, n_spawns, n_spawn_faults;
+static unsigned long n_file_writes, n_file_write_faults, n_file_short_writes;
 
 ssize_t write(int fd, const void *buf, size_t count) {
     static ssize_t (*real)(int, const void *, size_t);
@@ -436,6 +442,9 @@ ssize_t write(int fd, const void *buf, size_t count) {
             env_u64("VERIF_ENV_WRITE_FAIL_AT", &wf_fail_at);
             env_u64("VERIF_ENV_WRITE_ERRNO", &wf_errno);
             env_u64("VERIF_ENV_WRITE_SHORT_EVERY", &wf_short_every);
+            env_u64("VERIF_ENV_OWRITE_FAIL_AT", &of_fail_at);
+            env_u64("VERIF_ENV_OWRITE_ERRNO", &of_errno);
+            env_u64("VERIF_ENV_OWRITE_SHORT_EVERY", &of_short_every);
             wf_init = 1;
         }
         pthread_mutex_unlock(&lock);
@@ -451,6 +460,21 @@ ssize_t write(int fd, const void *buf, size_t count) {
             }
             if (wf_short_every && k % wf_short_every == 0 && count > 1) {
                 __sync_fetch_and_add(&n_short_writes, 1);
+                return real(fd, buf, count / 2);
+            }
+        }
+    }
+    if ((of_fail_at || of_short_every) && fd > 2 && count > 0) {
+        struct stat st;
+        if (fstat(fd, &st) == 0 && S_ISREG(st.st_mode)) {
+            unsigned long k = __sync_add_and_fetch(&n_file_writes, 1);
+            if (of_fail_at && k == of_fail_at) {
+                __sync_fetch_and_add(&n_file_write_faults, 1);
+                errno = (int)of_errno;
+                return -1;
+            }
+            if (of_short_every && k % of_short_every == 0 && count > 1) {
+                __sync_fetch_and_add(&n_file_short_writes, 1);
                 return real(fd, buf, count / 2);
             }
         }
@@ -503,9 +527,9 @@ static void report(void) {
     if (!p) return;
     FILE *f = fopen(p, "a");
     if (!f) return;
-    fprintf(f, "pid=%d getrandom=%lu readdir=%lu dirs=%lu affinity=%lu clock=%lu pipewrites=%lu writefaults=%lu shortwrites=%lu spawns=%lu spawnfaults=%lu ioops=%lu iofaults=%lu shortreads=%lu readeintr=%lu\n",
+    fprintf(f, "pid=%d getrandom=%lu readdir=%lu dirs=%lu affinity=%lu clock=%lu pipewrites=%lu writefaults=%lu shortwrites=%lu spawns=%lu spawnfaults=%lu ioops=%lu iofaults=%lu shortreads=%lu readeintr=%lu filewrites=%lu filewritefaults=%lu fileshortwrites=%lu\n",
             (int)getpid(), n_getrandom, n_readdir, n_dirs, n_affinity, n_clock, n_pipe_writes, n_write_faults, n_short_writes,
-            n_spawns, n_spawn_faults, n_io_ops, n_io_faults, n_short_reads, n_read_eintr);
+            n_spawns, n_spawn_faults, n_io_ops, n_io_faults, n_short_reads, n_read_eintr, n_file_writes, n_file_write_faults, n_file_short_writes);
     fclose(f);
 }
 
